@@ -134,7 +134,95 @@ def check_roundtrip(s: bc.Subject, ctx, sharp: bool):
     return False
 
 
+# ---------------------------------------------------------------------------------------------------
+# elementary scalar functions over 30 decades: componentwise ("relative") rounding model
+# ---------------------------------------------------------------------------------------------------
+MAGS = [1e-30, 1e-20, 1e-12, 1e-8, 1e-5, 1e-3, 0.03, 0.3, 1.0, 2.0, 3.0, 5.0, 8.0, 9.0, 10.0, 12.0, 15.0, 17.0, 20.0, 25.0,
+        30.0, 36.0, 40.0, 50.0, 80.0, 100.0, 300.0, 700.0]
+TINY_NORMAL = 1e-37 if bd.shim.F32 else 1e-300  # below: subnormal, flushed to zero by XLA on CPU (not a flowjax matter)
+
+
+def elementary_oracle(case, ctx):
+    """Exp / SoftPlus / Tanh / LeakyTanh / Scale as scalar maps on a log-spaced grid.  A float carries RELATIVE
+    precision, so "rounding scaled by the map's conditioning" is the componentwise bound
+        |inverse(transform(x)) - x| <= K eps (|x| + |J^-1| |y|),   |transform(inverse(y)) - y| <= K eps (|y| + |J| |x|)
+    (J = autodiff derivative of the plain transform).  The (1 + ...) absolute terms of the general leaf check hide
+    losses of relative accuracy at tiny images, e.g. softplus(x) for x < -9 (seeded change C01_D)."""
+    import jax
+    from flowjax import bijections as B
+    k = case["k"]
+    mv = float(case.get("max_val", 3.0))
+    obj = {"Exp": lambda: B.Exp(), "SoftPlus": lambda: B.SoftPlus(), "Tanh": lambda: B.Tanh(),
+           "LeakyTanh": lambda: B.LeakyTanh(mv), "Scale": lambda: B.Scale(jnp.asarray(float(case.get("scale", 1.0)), bd.FDT))}[k]()
+    who = f"C01|elementary|{k}"
+    dfun = jax.grad(lambda v: obj.transform(v))
+    mult = case["mult"]
+    KK = 64.0
+    for i, m in enumerate(MAGS):
+        for sgn in (1.0, -1.0):
+            v = np.asarray(sgn * m * mult[i % len(mult)], bd.FDT)
+            # ---- domain point ------------------------------------------------------------------
+            x = v
+            y = np.asarray(lib_call(who, obj.transform, jnp.asarray(x)))
+            J = float(np.asarray(dfun(jnp.asarray(x))))
+            sat = (k in ("Tanh",) and abs(float(y)) >= 1.0)
+            if np.isfinite(y) and np.isfinite(J) and abs(J) > TINY_NORMAL and abs(float(y)) > TINY_NORMAL and not sat:
+                xb = float(np.asarray(lib_call(who, obj.inverse, jnp.asarray(y))))
+                xb2 = float(np.asarray(lib_call(who, obj.inverse_and_log_det, jnp.asarray(y))[0]))
+                tol = KK * EPS * (abs(float(x)) + abs(float(y)) / abs(J))
+                ctx.evaluated()
+                for name, got in (("inverse(transform(x))", xb), ("inverse_and_log_det.point", xb2)):
+                    err = abs(got - float(x)) if np.isfinite(got) else np.inf
+                    ctx.ratio(f"elementary.{k}", err / tol)
+                    if err > tol:
+                        raise Violation(f"{who}|{name}", f"x={float(x)!r} y={float(y)!r} back={got!r} |err|={err:.3e} "
+                                                         f"componentwise tol={tol:.3e} (dy/dx={J:.3e})")
+                if abs(float(x)) >= 8 or abs(float(x)) <= 1e-5:
+                    ctx.mark_nontrivial(f"elem|{k}|x|{float(x)!r}")
+            # ---- codomain point -----------------------------------------------------------------
+            yy = v
+            if k in ("Exp", "SoftPlus"):
+                yy = np.abs(v)
+            elif k == "Tanh":
+                yy = np.asarray(sgn * (1.0 - min(m, 0.5)) if m > 1e-3 else v, bd.FDT) if abs(float(v)) >= 1 or m > 1e-3 else v
+                if abs(float(yy)) >= 1.0:
+                    continue
+            x2 = np.asarray(lib_call(who, obj.inverse, jnp.asarray(yy)))
+            if not np.isfinite(x2) or abs(float(x2)) < TINY_NORMAL:
+                if k in ("Exp", "SoftPlus", "Scale", "LeakyTanh") and np.isfinite(yy) and TINY_NORMAL < abs(float(yy)) < 1e300 and not np.isfinite(x2):
+                    raise Violation(f"{who}|inverse|nonfinite", f"inverse({float(yy)!r}) = {float(x2)!r}")
+                continue
+            J2 = float(np.asarray(dfun(jnp.asarray(x2))))
+            y2 = float(np.asarray(lib_call(who, obj.transform, jnp.asarray(x2))))
+            if not (np.isfinite(J2) and np.isfinite(y2)):
+                continue
+            tol = KK * EPS * (abs(float(yy)) + abs(J2) * abs(float(x2)))
+            err = abs(y2 - float(yy))
+            ctx.evaluated()
+            ctx.ratio(f"elementary.{k}", err / max(tol, 1e-300))
+            if err > tol:
+                raise Violation(f"{who}|transform(inverse(y))", f"y={float(yy)!r} x={float(x2)!r} forth={y2!r} |err|={err:.3e} "
+                                                                f"componentwise tol={tol:.3e} (dy/dx={J2:.3e})")
+            if abs(float(yy)) <= 1e-5:
+                ctx.mark_nontrivial(f"elem|{k}|y|{float(yy)!r}")
+    ctx.hist("elementary_kind", k)
+
+
+def elementary_cases():
+    from hypothesis import strategies as st
+
+    @st.composite
+    def f(draw):
+        k = draw(st.sampled_from(["Exp", "SoftPlus", "SoftPlus", "Tanh", "LeakyTanh", "Scale"]))
+        return {"kind": "elementary", "k": k, "max_val": draw(st.sampled_from([0.5, 1.0, 3.0, 5.0])),
+                "scale": draw(st.sampled_from([1e-6, 0.37, 1.0, 2.5, 1e6])),
+                "mult": draw(st.lists(st.floats(1.0, 1.99, allow_nan=False), min_size=5, max_size=5))}
+    return f()
+
+
 def oracle(case, ctx):
+    if case.get("kind") == "elementary":
+        return elementary_oracle(case, ctx)
     ctx.evaluated()
     s = bc.prepare(case)
     s.yraw = case.get("yinp")
@@ -193,6 +281,7 @@ def _with_y(strategy):
 
 def run(ctx):
     q = ctx.tier == "quick"
+    run_hypothesis(ctx, elementary_cases(), oracle, 6 if q else 40, "C01-elementary")
     run_hypothesis(ctx, _with_y(bc.leaf_cases()), oracle, 110 if q else 1200, "C01-leaves")
     run_hypothesis(ctx, _with_y(bc.tree_cases(3, 8) if q else bc.tree_cases(4, 14)), oracle, 30 if q else 250,
                    "C01-trees")
